@@ -15,7 +15,7 @@ import pickle
 import warnings
 
 ORIGINS = ("copy", "deepcopy", "pickle", "json", "sbml", "restored", "readded", "switched", "renamed", "observed",
-           "analysed", "in_context")
+           "analysed", "in_context", "observed_copy")
 
 
 class OriginUnavailable(Exception):
@@ -107,6 +107,11 @@ def _derive(model, origin, coefs, direction):
         from . import prehistory
 
         return prehistory.observe_everything(model)
+    if origin == "observed_copy":
+        # two routes in a row: whatever the observers made the model remember travels (or must not travel) with the copy
+        from . import prehistory
+
+        return prehistory.observe_everything(model).copy()
     if origin == "analysed":
         # analyses that promise to leave the model as they found it (C13) have run before
         from cobra.flux_analysis import find_blocked_reactions, flux_variability_analysis, pfba
